@@ -219,8 +219,8 @@ fn c_key_idx() {
     let i: usize = kani::any();
     let delta: usize = kani::any();
     kani::assume(1 <= i && i <= 8 && delta <= 6);
-    kani::cover!(i == 1 && delta == 6);
-    kani::cover!(i == 8 && delta == 0);
+    kani::cover!((i == 1) & (delta == 6));
+    kani::cover!((i == 8) & (delta == 0));
     assert!(key_idx(&key, i, delta).0 == spec::round_key(&key, 7 * i - delta));
 }
 
@@ -275,9 +275,9 @@ fn c_xor_set() {
     let v: [u8; 24] = kani::any();
     let (m, n): (usize, usize) = (kani::any(), kani::any());
     kani::assume(m <= 24 && n <= 24);
-    kani::cover!(m == 16 && n == 8);
-    kani::cover!(m == 16 && n == 16);
-    kani::cover!(m == 3 && n == 24);
+    kani::cover!((m == 16) & (n == 8)); // `&`: a short-circuit `&&` makes Kani emit a second, unreachable copy of the cover
+    kani::cover!((m == 16) & (n == 16));
+    kani::cover!((m == 3) & (n == 24));
     xor_set(&mut b[..m], &v[..n]);
     let mut j = 0;
     while j < 24 {
